@@ -2095,6 +2095,9 @@ def k_object_selection(R, S):
     fr_on = [z3.BitVec(f'os_on{k}', 8) for k in (1, 2)]        # F1 / F2: 0 -> o0, 2 -> I0, 3 -> U0
     # what the inline fragment contains: 0 -> the leaf field, 1 -> a nested inline fragment `... on o0 { leaf }`,
     # 2 -> a spread of F1 / F2 (that fragment is then not spread at the top level)
+    dep = [z3.BitVec(f'os_dep{i}', 8) for i in range(2)]       # deprecation of the schema fields `leaf`, `sub`
+    strategies = R.L.enums['DeprecationStrategy']
+    strat, has_strat = z3.BitVec('os_strat', 8), z3.BitVec('os_hasstrat', 8)
     ck = [z3.BitVec(f'os_ck{s}', 8) for s in range(S)]
     cfr = [z3.BitVec(f'os_cf{s}', 8) for s in range(S)]
     ON = ABSTRACT_OBJ_NAMES
@@ -2107,22 +2110,30 @@ def k_object_selection(R, S):
     def setup(st, B):
         schema, sv = abstract_schema(B, st, 'os_', members=[True, True], obj_names=ON)
         tid_s = B.variant('TypeId', 'Scalar', B.newtype('ScalarId', bv(0, 64)))
+        depv = lambda i: SymEnum(dep[i], {0: (), 1: (SymEnum(bv(1, 8), {0: (), 1: (StrV('why'),)}),)})
         leaf = B.struct('StoredField', name=StrV('leaf'), type=B.struct('StoredFieldType', id=tid_s, qualifiers=VecV(())),
-                        parent=B.variant('StoredFieldParent', 'Object', B.newtype('ObjectId', bv(0, 32))), deprecation=none())
+                        parent=B.variant('StoredFieldParent', 'Object', B.newtype('ObjectId', bv(0, 32))), deprecation=depv(0))
+        sub = B.struct('StoredField', name=StrV('sub'), type=B.struct('StoredFieldType', id=B.variant('TypeId', 'Object', B.newtype('ObjectId', bv(1, 32))), qualifiers=VecV(())),
+                       parent=B.variant('StoredFieldParent', 'Object', B.newtype('ObjectId', bv(0, 32))), deprecation=depv(1))
         names = R.L.structs['Schema']
         fs = list(schema.fields)
-        fs[names.index('stored_fields')] = VecV([leaf])
+        fs[names.index('stored_fields')] = VecV([leaf, sub])
         schema = Agg(None, fs, 'Schema')
         holder['sv'] = sv
+        st.pc += [z3.ULT(dep[0], 2), z3.ULT(dep[1], 2), z3.ULT(has_strat, 2), z3.ULT(strat, len(strategies))]
+        if holder['composite_first']:
+            st.pc.append(sk[0] == i_field)
         applies = lambda code: z3.Or(code == 0, z3.And(code == 2, sv['impl'][0]), code == 3)     # o0 is a member of U0 in this scenario
         for s in range(S):
             st.pc += [z3.Or(sk[s] == i_field, sk[s] == i_inline, sk[s] == i_spread, sk[s] == i_typename), z3.Or(st_fr[s] == 1, st_fr[s] == 2)]
             st.pc += [z3.ULT(ck[s], 3), z3.Or(cfr[s] == 1, cfr[s] == 2)]
             st.pc.append(z3.Implies(z3.And(sk[s] == i_inline, ck[s] == 2), z3.And(*[z3.Implies(cfr[s] == k + 1, applies(fr_on[k])) for k in range(2)])))
             st.pc.append(z3.Implies(sk[s] == i_inline, applies(cond[s])))
+            st.pc.append(z3.Implies(z3.And(sk[s] == i_inline, cond[s] == 3), ck[s] != 0))      # a union has no fields of its own
             st.pc.append(z3.Implies(sk[s] == i_spread, z3.And(*[z3.Implies(st_fr[s] == k + 1, applies(fr_on[k])) for k in range(2)])))
         # the response key `leaf` is produced by at most one selection (merging of equal keys is not what is claimed here)
-        st.pc.append(z3.Sum([z3.If(z3.Or(sk[s] == i_field, z3.And(sk[s] == i_inline, ck[s] != 2)), 1, 0) for s in range(S)]) <= 1)
+        st.pc.append(z3.Sum([z3.If(z3.Or(sk[s] == i_field, z3.And(sk[s] == i_inline, ck[s] != 2)), 1, 0)
+                             for s in range(S) if not (s == 0 and holder['composite_first'])]) <= 1)
         # each named fragment is spread at most once (top level or inside an inline fragment)
         spread_of = lambda s_, k: z3.Or(z3.And(sk[s_] == i_spread, st_fr[s_] == k), z3.And(sk[s_] == i_inline, ck[s_] == 2, cfr[s_] == k))
         for k in (1, 2):
@@ -2137,6 +2148,9 @@ def k_object_selection(R, S):
             child, grandchild = me + 1, me + 2
             leaf_sel = B.struct('SelectedField', alias=none(), field_id=B.newtype('StoredFieldId', bv(0, 64)), selection_set=VecV(()))
             inline = B.struct('InlineFragment', type_id=ty_of(cond[s], B), selection_set=VecV([sid(child)]))
+            if s == 0 and holder['composite_first']:
+                # slot 0 is the composite field `sub { leaf }` (its sub-selection is the grandchild slot, a plain leaf of O1)
+                leaf_sel = B.struct('SelectedField', alias=none(), field_id=B.newtype('StoredFieldId', bv(1, 64)), selection_set=VecV([sid(grandchild)]))
             selections.append(SymEnum(sk[s], {i_field: (leaf_sel,), i_inline: (inline,), i_spread: (B.newtype('ResolvedFragmentId', z3.ZeroExt(24, st_fr[s])),), i_typename: ()}))
             parents.append((sid(me), B.variant('SelectionParent', 'Fragment', B.newtype('ResolvedFragmentId', bv(0, 32)))))
             nested = B.struct('InlineFragment', type_id=B.variant('TypeId', 'Object', B.newtype('ObjectId', bv(0, 32))), selection_set=VecV([sid(grandchild)]))
@@ -2144,36 +2158,45 @@ def k_object_selection(R, S):
             selections.append(SymEnum(child_kind, {i_field: (leaf_sel,), i_inline: (nested,), i_spread: (B.newtype('ResolvedFragmentId', z3.ZeroExt(24, cfr[s])),)}))
             parents.append((sid(child), B.variant('SelectionParent', 'InlineFragment', sid(me))))
             selections.append(mk_leaf())
-            parents.append((sid(grandchild), B.variant('SelectionParent', 'InlineFragment', sid(child))))
+            parents.append((sid(grandchild), B.variant('SelectionParent', 'Field', sid(me)) if (s == 0 and holder['composite_first']) else B.variant('SelectionParent', 'InlineFragment', sid(child))))
             top.append(sid(me))
         frags = [B.struct('ResolvedFragment', name=StrV('F0'), on=B.variant('TypeId', 'Object', B.newtype('ObjectId', bv(0, 32))), selection_set=VecV(top))]
         for k in range(2):
             frags.append(B.struct('ResolvedFragment', name=StrV(f'F{k + 1}'), on=ty_of(fr_on[k], B), selection_set=VecV(())))
         q = B.struct('Query', fragments=VecV(frags), operations=VecV(()), selection_parent_idx=B.btreemap(parents), selections=VecV(selections), variables=VecV(()))
         bq = B.cell(B.struct('BoundQuery', query=B.cell(q), schema=B.cell(schema)))
-        opts = B.cell(options_value(B))
+        opts = B.cell(options_value(B, deprecation_strategy=SymEnum(has_strat, {0: (), 1: (SymEnum(strat, {i: () for i in range(len(strategies))}),)})))
         R.vm.push_call(st, f, [B.newtype('ResolvedFragmentId', bv(0, 32)), opts, bq], None, None)
-    outs, _ = R.explore(f'render_fragment on an object type ({S} selections)', setup)
+    outs = []
+    for composite_first in (False, True):
+        holder['composite_first'] = composite_first
+        o_, _ = R.explore(f'render_fragment on an object type ({S} selections{", composite field first" if composite_first else ""})', setup)
+        outs += [(x, composite_first) for x in o_]
     sv = holder.get('sv')
     ES = R.L.structs.get('ExpandedSelection')
     EF, TA = R.L.structs.get('ExpandedField'), R.L.structs.get('TypeAlias')
     names_ = {0: ON[0], 2: 'I0', 3: 'U0'}
 
-    def model_of(m):
+    def model_of(m, composite_first=False):
         ev = lambda x: m.eval(x, model_completion=True)
         sels = []
         for s in range(S):
             k = ev(sk[s]).as_long()
+            if s == 0 and composite_first:
+                sels.append('sub { leaf }')
+                continue
             inner = ['leaf', f'... on {ON[0]} {{ leaf }}', f'...F{ev(cfr[s]).as_long()}'][ev(ck[s]).as_long()]
             sels.append('__typename' if k == i_typename else 'leaf' if k == i_field else f'... on {names_[ev(cond[s]).as_long()]} {{ {inner} }}' if k == i_inline else f'...F{ev(st_fr[s]).as_long()}')
         return dict(parent='object', selections=sels, F1_on=names_[ev(fr_on[0]).as_long()], F2_on=names_[ev(fr_on[1]).as_long()],
-                    implements=[z3.is_true(ev(x)) for x in sv['impl']], members=[True, True], obj_names=list(ON))
-    for o in outs:
+                    implements=[z3.is_true(ev(x)) for x in sv['impl']], members=[True, True], obj_names=list(ON),
+                    deprecated=[n_ for n_, d_ in zip(('leaf', 'sub'), dep) if ev(d_).as_long() == 1],
+                    strategy=(strategies[ev(strat).as_long()] if ev(has_strat).as_long() == 1 else None))
+    for o, composite_first in outs:
         if o.kind != 'return':
             if o.kind == 'panic':
                 m = R.prove('object_selection', o, z3.BoolVal(False), 'no panic on a valid selection')
                 if m is not None:
-                    out.append(dict(kernel='object_selection', prop='C01', what=f'panic: {o.msg}', model=model_of(m)))
+                    out.append(dict(kernel='object_selection', prop='C01', what=f'panic: {o.msg}', model=model_of(m, composite_first)))
             elif o.kind != 'limit':
                 R.inconclusive.append(f'object_selection: {o.kind}: {o.msg}')
             continue
@@ -2184,21 +2207,35 @@ def k_object_selection(R, S):
         al = [a for a in aliases if z3.is_true(simp(a.fields[TA.index('struct_id')].fields[0] == bv(0, 32)))]
         n_flat = sum(1 for x in fl if z3.is_true(simp(x.fields[EF.index('flatten')])))
         n_plain = len(fl) - n_flat
-        n_leaf = z3.Sum([z3.If(z3.Or(sk[s] == i_field, z3.And(sk[s] == i_inline, ck[s] != 2)), 1, 0) for s in range(S)])
-        n_inline = z3.Sum([z3.If(sk[s] == i_inline, 1, 0) for s in range(S)])
-        n_spread = z3.Sum([z3.If(z3.Or(sk[s] == i_spread, z3.And(sk[s] == i_inline, ck[s] == 2)), 1, 0) for s in range(S)])
+        i_deny = strategies.index('Deny')
+        denied = lambda i: z3.And(has_strat == 1, strat == i_deny, dep[i] == 1)      # a deprecated field under `deny` may be left out
+        prod = []       # (produces a plain field, may be dropped)
+        for s in range(S):
+            if s == 0 and composite_first:
+                prod.append((z3.BoolVal(True), denied(1)))
+            else:
+                prod.append((z3.Or(sk[s] == i_field, z3.And(sk[s] == i_inline, ck[s] != 2)), denied(0)))
+        n_leaf = z3.Sum([z3.If(c_, 1, 0) for c_, _ in prod])
+        n_required = z3.Sum([z3.If(z3.And(c_, z3.Not(d_)), 1, 0) for c_, d_ in prod])
+        n_inline = z3.Sum([z3.If(sk[s] == i_inline, 1, 0) for s in range(S) if not (s == 0 and composite_first)])
+        n_spread = z3.Sum([z3.If(z3.Or(sk[s] == i_spread, z3.And(sk[s] == i_inline, ck[s] == 2)), 1, 0) for s in range(S) if not (s == 0 and composite_first)])
         claims = {}
         if al:
             claims['C01:object-alias-only-for-single-spread'] = z3.And(n_spread == 1, n_leaf == 0, n_inline == 0)
         else:
-            claims['C01:object-parent-inline-fragment-fields-kept'] = z3.Implies(n_inline > 0, n_leaf == n_plain)
+            kept = z3.And(n_plain >= n_required, n_plain <= n_leaf)
+            claims['C01:object-parent-inline-fragment-fields-kept'] = z3.Implies(n_inline > 0, kept)
             claims['C01:object-parent-every-spread-kept'] = n_spread == n_flat
-            claims['C01:object-parent-fields-kept'] = z3.Implies(n_inline == 0, n_leaf == n_plain)
+            claims['C01:object-parent-fields-kept'] = z3.Implies(n_inline == 0, kept)
         m = R.prove('object_selection', o, z3.And(*claims.values()), 'fields of an object selection')
         if m is not None:
             failing = [nm for nm, c in claims.items() if not z3.is_true(m.eval(c, model_completion=True))]
+            mdl = model_of(m, composite_first)
             for nm in failing[:2] or ['C01:?']:
-                out.append(dict(kernel='object_selection', prop='C01', what=nm, model=model_of(m), struct_fields=[repr(x)[:80] for x in fl][:4]))
+                out.append(dict(kernel='object_selection', prop='C01', what=nm, model=mdl, struct_fields=[repr(x)[:80] for x in fl][:4]))
+            if mdl['strategy'] == 'Deny' and mdl['deprecated']:
+                # under `deny` exactly the deprecated fields may be missing from the generated struct (C14)
+                out.append(dict(kernel='object_selection', prop='C14', what='C14:deny-drops-a-field-that-is-not-deprecated', model=mdl))
     R.sample(dict(kernel='object_selection', selections=S, paths=len(outs)))
     return out
 
